@@ -41,9 +41,18 @@ def check(ctx, args):
     rnd = random.Random(ctx.seed)
     progs, stats = pipelib.gen_programs(ctx, nprog, ctx.seed + 6000)
     res = pipelib.run_programs(ctx, progs, "ps0")
+    # the family "preflight gates everything" (pgen/chain.go): a failing
+    # preflight job must hold back every call, at any nesting depth
+    lib.GOENV["VH_GEN_MODE"] = "preflight_nested"
+    try:
+        progs_pf, _ = pipelib.gen_programs(ctx, 2 if quick else 12, ctx.seed + 6500, sub="progs_pf")
+    finally:
+        del lib.GOENV["VH_GEN_MODE"]
+    res_pf = pipelib.run_programs(ctx, progs_pf, "ps0")
     scen = []
-    for name, info in sorted(res.items()):
-        d = os.path.join(progs, name)
+    allprogs = [(os.path.join(progs, n), n, i) for n, i in sorted(res.items())] + \
+        [(os.path.join(progs_pf, n), "pf_" + n, i) for n, i in sorted(res_pf.items())]
+    for d, name, info in allprogs:
         if info["exit"] != 0 or info["jobs"] < 2:
             continue
         jobs = pipelib.clean_jobs(d)
@@ -52,6 +61,9 @@ def check(ctx, args):
         noouts = {n for n, b in spec.items() if not b.get("outs")}
         for k in range(per_prog):
             jid, stage, phase = rnd.choice(jobs)
+            pfj = [j for j in jobs if j[1] == "PFCHECK"]
+            if name.startswith("pf_") and pfj and k % 2 == 0:
+                jid, stage, phase = pfj[0]
             kind = KINDS[(k + rnd.randrange(len(KINDS))) % len(KINDS)]
             if kind in ("missing_key", "wrong_type") and (phase == "split" or (phase == "main" and stage in splits)):
                 # chunk definitions and chunk outs are validated against the declared
